@@ -23,6 +23,7 @@
  *                the width the header announces (formatting only; never reads beyond n values)
  *   SetFilter    fmt, px, ret
  *   Render       repeat, affine, out[[a,r,g,b]..]
+ *   Skip         an S or D step that was not executed because the create call returned no block
  *   End          the script was executed to its end
  */
 #include "vcommon.h"
@@ -293,6 +294,7 @@ main (int argc, char **argv)
 	    pixman_format_code_t f;
 	    uint32_t word;
 	    if (fscanf (in, "%31s %d %d %d %d %d %d", fmt, &w, &h, &b[0], &b[1], &b[2], &b[3]) != 7) return 3;
+	    if (!params) { vt_begin ("Skip"); vt_str ("what", "S"); vt_end (); continue; }
 	    if (!strcmp (fmt, "a8r8g8b8")) f = PIXMAN_a8r8g8b8;
 	    else if (!strcmp (fmt, "x8r8g8b8")) f = PIXMAN_x8r8g8b8;
 	    else if (!strcmp (fmt, "a8b8g8r8")) f = PIXMAN_a8b8g8r8;
@@ -325,6 +327,7 @@ main (int argc, char **argv)
 	    if (fscanf (in, "%d %d %d", &rep, &dw, &dh) != 3) return 3;
 	    for (i = 0; i < 9; i++)
 		if (fscanf (in, "%d", &m[i]) != 1) return 3;
+	    if (!params) { vt_begin ("Skip"); vt_str ("what", "D"); vt_end (); continue; }
 	    if (!src) return 3;
 	    for (i = 0; i < 9; i++) t.matrix[i / 3][i % 3] = m[i];
 	    pixman_image_set_repeat (src, (pixman_repeat_t)rep);
